@@ -233,10 +233,48 @@ func TestVerifC43(t *testing.T) {
 			r.Sample(map[string]any{"path": path, "resource": resrc, "secret": how, "client": ip, "authorization": authKind, "status": res.status, "authorized_by_reference": authorized})
 		}
 	}
+	// ---- the CDN secret is rotated through the Control API: once the reload is done the old secret opens nothing
+	{
+		apiBase := fmt.Sprintf("http://127.0.0.1:%d", b.ports["api"])
+		patch := func(body string) int {
+			req, _ := http.NewRequest(http.MethodPatch, apiBase+"/v3/config/global/patch", strings.NewReader(body))
+			req.Header.Set("Content-Type", "application/json")
+			res, err := h1.Do(req)
+			if err != nil {
+				return 0
+			}
+			io.Copy(io.Discard, res.Body) //nolint:errcheck
+			res.Body.Close()
+			return res.StatusCode
+		}
+		st1 := patch(`{"hlsCDNSecret":"rotatedSECRET456"}`)
+		// the core answers an edit before it applies it, and handles the next edit only after applying this one:
+		// a second (empty) edit is the barrier
+		st2 := 0
+		for try := 0; try < 100 && st2 != 200; try++ { // the API server itself is replaced during that reload: retry while it is away
+			if st2 = patch(`{"logLevel":"info"}`); st2 != 200 {
+				time.Sleep(100 * time.Millisecond)
+			}
+		}
+		if st1 == 200 && st2 == 200 {
+			for _, u := range []string{"/p0/index.m3u8", "/p1/index.m3u8"} {
+				res, err := c43Do(h1, base+u, map[string]string{"Authorization": "Bearer " + cdn})
+				r.Eval("rotated-cdn-secret|" + u)
+				if err == nil && res.status == 200 {
+					r.Violation("media-served-with-revoked-cdn-secret", fmt.Sprintf("hlsCDNSecret was changed through the Control API (edit accepted, reload completed); GET %s with the OLD secret as bearer still answers 200 (%s)", u, res.ctype), nil)
+				} else if err == nil {
+					r.Count("requests_with_revoked_cdn_secret_refused", 1)
+				}
+			}
+		} else {
+			r.Count("cdn_secret_rotation_not_accepted", 1)
+			r.SetAdd("cdn_secret_rotation_statuses", fmt.Sprintf("%d %d", st1, st2))
+		}
+	}
 	r.Count("requests_served", int64(served))
 	r.Count("requests_refused", int64(refused))
 	if served < n/50 {
 		r.Inconclusive("only %d of %d requests were served: the positive side of the reference was hardly exercised", served, n)
 	}
-	r.Finish("a real Core (RTSP publishers with key frames on p0 and p1, HLS MPEG-TS variant, internal users alice: read p0, bob: read p1, a configured CDN secret); three player sessions opened the way a player does (multivariant playlist with credentials, cookieCheck=1) from 127.0.0.1 and 127.0.0.2, plus a CDN session. Requests for every resource the sessions were told about (media playlists, segments) on either path with: no secret, another session's secret, the right one, upper-cased, truncated, unknown; in the query or in the cookie; from either client address; with no Authorization, the CDN bearer, a wrong bearer, valid Basic credentials alone, or a forged X-Forwarded-For naming the session's address. Oracle: 200 with content => (secret of a session of that path and that client address) or CDN bearer. non-trivial = distinct (path, resource kind, secret kind, address, authorization, placement)")
+	r.Finish("a real Core (RTSP publishers with key frames on p0 and p1, HLS MPEG-TS variant, internal users alice: read p0, bob: read p1, a configured CDN secret); three player sessions opened the way a player does (multivariant playlist with credentials, cookieCheck=1) from 127.0.0.1 and 127.0.0.2, plus a CDN session. Requests for every resource the sessions were told about (media playlists, segments) on either path with: no secret, another session's secret, the right one, upper-cased, truncated, unknown; in the query or in the cookie; from either client address; with no Authorization, the CDN bearer, a wrong bearer, valid Basic credentials alone, or a forged X-Forwarded-For naming the session's address. Oracle: 200 with content => (secret of a session of that path and that client address) or CDN bearer. Finally the CDN secret is changed through the Control API; after the reload (barrier: a second edit) the old secret must not open a session. non-trivial = distinct (path, resource kind, secret kind, address, authorization, placement)")
 }
